@@ -178,6 +178,13 @@ func (g *verifC10Gate) parkedAfter(total int) bool {
 	return g.delivered == total && g.budget == 0 && g.parked && g.enters == g.exits+1
 }
 
+// bytes the reader has taken so far
+func (g *verifC10Gate) pulled() int {
+	g.mu.Lock()
+	defer g.mu.Unlock()
+	return g.delivered
+}
+
 func (g *verifC10Gate) sawErr() bool {
 	g.mu.Lock()
 	defer g.mu.Unlock()
@@ -585,10 +592,33 @@ func (r *verifC10Run) deliver(n int) string {
 	r.unsent = r.unsent[n:]
 	r.written += n
 	r.gate.allow(n)
-	if a, ok := r.fake.do(verifC10Cmd{op: 2, data: data}); !ok || a != "" {
+	aborts0 := r.ctl.aborts.Load()
+	select {
+	case r.fake.cmds <- verifC10Cmd{op: 2, data: data}:
+	case <-time.After(verifC10Wait()):
 		return "client-write-not-consumed"
 	}
-	return ""
+	deadline := time.After(verifC10Wait() + time.Duration(n/1000)*time.Millisecond)
+	tick := time.NewTicker(20 * time.Millisecond)
+	defer tick.Stop()
+	for {
+		select {
+		case a := <-r.fake.acks:
+			if a != "" {
+				return "client-write-not-consumed"
+			}
+			return ""
+		case <-tick.C:
+			// the reader consumes a complete item that the client may send IN FULL before it decides
+			// anything; if it has aborted the client while the client is still writing, it has
+			// turned down a message it must take (nobody will ever read the rest)
+			if r.ctl.aborts.Load() > aborts0 && r.gate.pulled() < r.written {
+				return "reader-aborted-the-client-in-the-middle-of-a-complete-message-within-the-size-limit"
+			}
+		case <-deadline:
+			return "client-write-not-consumed"
+		}
+	}
 }
 
 // after the reader left its loop: with sendMu free the clean-up runs through
@@ -616,9 +646,108 @@ func verifC10ShapeOK(m []byte) bool {
 	}
 	if len(rest) >= 4 && rest[0] == 26 && rest[2] == 10 {
 		l2, l3, t := int(rest[1]), int(rest[3]), rest[4:]
-		return l3 < 126 && l2 == l3+2 && len(t) == l3
+		return l3 < 126 && l2 == l3+2 && l3 <= len(t) && verifC10IsPad(t[l3:])
+	}
+	if rest[0] == 122 {
+		return verifC10IsPad(rest)
 	}
 	return false
+}
+
+// C10_Model.is_pad: nothing, or ONE padding field (field 15 - unknown to ClientCompatResponse -,
+// length-delimited, varint of at most 5 bytes) that takes everything up to the end
+func verifC10IsPad(t []byte) bool {
+	if len(t) == 0 {
+		return true
+	}
+	if t[0] != 122 {
+		return false
+	}
+	v, k, shift := 0, 1, 0
+	for {
+		if k >= len(t) || k > 5 {
+			return false
+		}
+		b := int(t[k])
+		v += (b & 127) << shift
+		shift += 7
+		k++
+		if b < 128 {
+			break
+		}
+	}
+	return len(t)-k == v
+}
+
+func verifC10VarintLen(v int) int {
+	switch {
+	case v < 1<<7:
+		return 1
+	case v < 1<<14:
+		return 2
+	case v < 1<<21:
+		return 3
+	case v < 1<<28:
+		return 4
+	}
+	return 5
+}
+
+// C10_Model.padded_out / pad_for: the answer (name, marker) padded to an encoded size of exactly
+// <base> + delta bytes (base 0: 0, 1: the limit of the server-response reader, 2: the limit of the
+// client-output reader - the constants this binary was compiled with), framed.  An answer larger
+// than what the client may send is not built: its 4-byte prefix is all a correct reader looks at.
+func verifC10Padded(name, tag []byte, base, delta int64) ([]byte, bool) {
+	var lb int64
+	switch base {
+	case 0:
+	case 1:
+		lb = maxServerResponseSize
+	case 2:
+		lb = maxClientResponseSize
+	default:
+		return nil, false
+	}
+	total := lb + delta
+	if total < 0 || total >= 1<<32 || len(name) == 0 || len(name) >= 100 || len(tag) >= 100 {
+		return nil, false
+	}
+	plain := []byte{10, byte(len(name))}
+	plain = append(plain, name...)
+	if len(tag) > 0 {
+		plain = append(plain, 26, byte(len(tag)+2), 10, byte(len(tag)))
+		plain = append(plain, tag...)
+	}
+	pad := -1
+	for k := 1; k <= 4 && pad < 0; k++ {
+		if p := int(total) - len(plain) - 1 - k; p >= 0 && verifC10VarintLen(p) == k {
+			pad = p
+		}
+	}
+	if pad < 0 {
+		return nil, false
+	}
+	var pre [4]byte
+	binary.BigEndian.PutUint32(pre[:], uint32(total))
+	if total > maxClientResponseSize {
+		return pre[:], true
+	}
+	out := make([]byte, 0, 4+int(total))
+	out = append(out, pre[:]...)
+	out = append(out, plain...)
+	out = append(out, 122)
+	for v := pad; ; v >>= 7 {
+		if v < 128 {
+			out = append(out, byte(v))
+			break
+		}
+		out = append(out, byte(128+v&127))
+	}
+	out = append(out, make([]byte, pad)...)
+	if len(out) != 4+int(total) {
+		return nil, false
+	}
+	return out, true
 }
 
 func (r *verifC10Run) rstep() string {
@@ -880,6 +1009,19 @@ func (r *verifC10Run) act(a vsx, next *vsx) string {
 			return "bad-case"
 		}
 		r.outClosed = true
+		return ""
+	case 15: // the client writes the answer (name, marker) padded to an encoded size of <base> + delta
+		if r.exited || r.outClosed || len(a.l) != 5 {
+			return "bad-case"
+		}
+		if len(r.unsent) != 0 || r.reader != 0 {
+			return "bad-case" // the model's short-cut for such answers holds at a frame boundary
+		}
+		data, ok := verifC10Padded(a.l[1].b, a.l[2].b, a.l[3].i, a.l[4].i)
+		if !ok {
+			return "bad-case"
+		}
+		r.unsent = append(r.unsent, data...)
 		return ""
 	case 6: // CCloseIn
 		if r.exited {
@@ -1376,8 +1518,9 @@ func TestVerifConsts(t *testing.T) {
 	if err := internal.WriteDelimitedMessage(&b, &conformancev1.ClientCompatResponse{}); err != nil {
 		t.Fatal(err)
 	}
-	s := fmt.Sprintf("Definition c10_max_response : N := %d%%N.\nDefinition c10_prefix_len : N := %d%%N.\n",
-		maxClientResponseSize, b.Len())
+	s := fmt.Sprintf("Definition c10_max_response : N := %d%%N.\nDefinition c10_max_server_response : N := %d%%N.\n"+
+		"Definition c10_prefix_len : N := %d%%N.\n",
+		maxClientResponseSize, maxServerResponseSize, b.Len())
 	if err := os.WriteFile(out, []byte(s), 0o644); err != nil {
 		t.Fatal(err)
 	}
